@@ -811,8 +811,12 @@ class AnimalSpecies:
                 feed_input.kcals = 0
                 NE_provided = NE_from_grass + NE_from_feed
                 # fraction of the requirement delivered (ratio taken before the balance is reduced)
-                self.population_fed = round(
-                    (NE_provided / self.NE_balance.kcals) * self.current_population
+                # (rounded to whole animals, but never more than the herd itself, which need not be a whole number)
+                self.population_fed = min(
+                    round(
+                        (NE_provided / self.NE_balance.kcals) * self.current_population
+                    ),
+                    self.current_population,
                 )
                 self.NE_balance.kcals -= NE_provided
 
